@@ -23,6 +23,13 @@ def obsS : Obs → String
   | .command => "cmd"
   | .brokerClosed => "bc"
 
+/-- state summary appended to every reply: state, continuous flag, result()/format_exception() of the last run -/
+def tailS (s : St) : List String :=
+  let ce := match s.cont with | some b => b01 b | none => "E"
+  let rs := match s.lastResult with | some (some v) => toString v | _ => "-"
+  let fe := match s.lastResult with | some _ => "E" | none => "N"
+  [s!"st={s.ms}", s!"ce={ce}", s!"rs={rs}", s!"fe={fe}"]
+
 def optN (s : String) : Option (Option Nat) := if s = "-" then some none else s.toNat?.map some
 def optB (s : String) : Option (Option Bool) :=
   if s = "-" then some none else if s = "1" then some (some true) else if s = "0" then some (some false) else none
@@ -57,35 +64,30 @@ def handle (s : St) (ws : List String) : St × String :=
         let op2 : Op := if cmd = "xreset" then .reset none none none none else .close
         if s.childAlive && s1.ms = "finished" then
           let (s2, o2) := step s1 op2
-          let ce := match s2.cont with | some b => b01 b | none => "E"
-          (s2, " ".intercalate ((o1 ++ o2).map obsS ++ [s!"st={s2.ms}", s!"ce={ce}"]))
+          (s2, " ".intercalate ((o1 ++ o2).map obsS ++ tailS s2))
         else
-          let ce := match s1.cont with | some b => b01 b | none => "E"
-          (s1, " ".intercalate (o1.map obsS ++ [s!"st={s1.ms}", s!"ce={ce}"]))
+          (s1, " ".intercalate (o1.map obsS ++ tailS s1))
       | none => (s, "bad-op")
     else if cmd = "pexit" then
       match optN r with
       | some r =>
         let (s1, o1) := step s .childPrompt
         let (s2, o2) := step s1 (.childExit r)
-        let ce := match s2.cont with | some b => b01 b | none => "E"
-        (s2, " ".intercalate ((o1 ++ o2).map obsS ++ [s!"st={s2.ms}", s!"ce={ce}"]))
+        (s2, " ".intercalate ((o1 ++ o2).map obsS ++ tailS s2))
       | none => (s, "bad-op")
     else
       match parseOp ws with
       | some op =>
         if op.isLifecycle && (s.waitBlocked || s.closeBlocked) then (s, "skipped") else
         let (s', o) := step s op
-        let ce := match s'.cont with | some b => b01 b | none => "E"
-        (s', " ".intercalate (o.map obsS ++ [s!"st={s'.ms}", s!"ce={ce}"]))
+        (s', " ".intercalate (o.map obsS ++ tailS s'))
       | none => (s, "bad-op")
   | _ =>
     match parseOp ws with
     | some op =>
       if op.isLifecycle && (s.waitBlocked || s.closeBlocked) then (s, "skipped") else
       let (s', o) := step s op
-      let ce := match s'.cont with | some b => b01 b | none => "E"
-      (s', " ".intercalate (o.map obsS ++ [s!"st={s'.ms}", s!"ce={ce}"]))
+      (s', " ".intercalate (o.map obsS ++ tailS s'))
     | none => (s, "bad-op")
 
 def main : IO Unit := do
